@@ -10,17 +10,18 @@ import (
 
 // Val is a symbolic value: an SMT term plus static (per-path) metadata.
 type Val struct {
-	T      Term
-	Typ    types.Type
-	LV     *LVal         // static lvalue when the value is a pointer produced by Alloc/FieldAddr/IndexAddr
-	Clo    *Closure      // statically known closure
-	Fn     *ssa.Function // statically known function value
-	Tup    []Val         // tuple components
-	Dyn    *Val          // interface: statically known payload
-	World  int           // context/store values: world index+1 (0 = not a context)
-	Pfx    string        // store values: key-space prefix term (sort Bytes) rendered
-	Bound  *ssa.Function // bound-method closure target
-	Commit *[2]int       // CacheContext commit function: copy world [0] into world [1]
+	T       Term
+	Typ     types.Type
+	LV      *LVal         // static lvalue when the value is a pointer produced by Alloc/FieldAddr/IndexAddr
+	Clo     *Closure      // statically known closure
+	Fn      *ssa.Function // statically known function value
+	Tup     []Val         // tuple components
+	Dyn     *Val          // interface: statically known payload
+	World   int           // context/store values: world index+1 (0 = not a context)
+	Pfx     string        // store values: key-space prefix term (sort Bytes) rendered
+	Bound   *ssa.Function // bound-method closure target
+	Commit  *[2]int       // CacheContext commit function: copy world [0] into world [1]
+	OfSlice *Term         // a Bytes value that is the content of this slice (its length is the slice's)
 }
 
 type Closure struct {
